@@ -110,16 +110,52 @@ func RunBlahut(c *core.Ctx) {
 			W[i][j] /= s
 		}
 	}
+	// options that leave the ground of Arimoto's theorem: an initial
+	// distribution with zero-mass symbols, an acceleration parameter lambda
+	// other than 1.  Then only the structural oracles apply: every iterate is
+	// a distribution (no NaN), the step count, the starting vector untouched.
+	lambda := 1.0
+	structuralOnly := false
+	if !naive && t.Bool(1, 4) {
+		lambda = []float64{0.5, 1.5, 2}[t.Choose(3)]
+		structuralOnly = true
+	}
+	zeroMass := t.Bool(1, 5)
 	p0 := make([]float64, n)
 	s := 0.0
 	for i := range p0 {
 		p0[i] = float64(t.Range(1, 4))
+		if zeroMass && i > 0 && t.Bool(1, 2) {
+			p0[i] = 0
+			structuralOnly = true
+		}
 		s += p0[i]
+	}
+	// a zero-mass symbol must not be the only way to reach an output: the
+	// posterior of that output is 0/0 then, which is outside what the routine
+	// (and Arimoto's setting) defines
+	for j := 0; j < m; j++ {
+		reach, col := 0.0, 0.0
+		for i := 0; i < n; i++ {
+			reach += p0[i] * W[i][j]
+			col += W[i][j]
+		}
+		if col > 0 && reach == 0 {
+			for i := range p0 {
+				if p0[i] == 0 {
+					p0[i] = 1
+					s++
+				}
+			}
+			break
+		}
 	}
 	worst := 0.0
 	for i := range p0 {
 		p0[i] /= s
-		worst = math.Max(worst, math.Log(1/p0[i]))
+		if p0[i] > 0 {
+			worst = math.Max(worst, math.Log(1/p0[i]))
+		}
 	}
 	steps := []int{1, 3, 10, 50, 400}[t.Choose(5)]
 	hookStopAt := 0
@@ -130,7 +166,7 @@ func RunBlahut(c *core.Ctx) {
 	if naive {
 		what = "blahut.RunNaive"
 	}
-	c.Logf("%s channel %v p0=%v steps=%d hookStop=%d", what, W, p0, steps, hookStopAt)
+	c.Logf("%s channel %v p0=%v steps=%d hookStop=%d lambda=%g", what, W, p0, steps, hookStopAt, lambda)
 	lo, hi := capacityRef(W)
 	if hi-lo > 1e-9 {
 		c.Count("not-judged:reference-capacity-not-converged")
@@ -152,6 +188,10 @@ func RunBlahut(c *core.Ctx) {
 		}
 		if math.Abs(sum-1) > 1e-9 {
 			c.Fail("hook", what+"|iterate-not-a-distribution", "%s: iterate %d sums to %.12g: %v", what, calls, sum, p)
+		}
+		if structuralOnly {
+			prev = append([]float64{}, p...)
+			return hookStopAt > 0 && calls >= hookStopAt
 		}
 		// J (bits) is the lower bound computed from the previous iterate
 		q := outDist(W, prev)
@@ -186,7 +226,7 @@ func RunBlahut(c *core.Ctx) {
 				flat = append(flat, W[i]...)
 			}
 			r := blahut.Run(ad.NewDenseFloat64Matrix(flat, n, m), ad.NewDenseFloat64Vector(append([]float64{}, p0...)), steps,
-				blahut.Hook{Value: func(p ad.Vector, J ad.Scalar) bool { return onHook(floats(p), J.GetFloat64()) }})
+				blahut.Hook{Value: func(p ad.Vector, J ad.Scalar) bool { return onHook(floats(p), J.GetFloat64()) }}, blahut.Lambda{Value: lambda})
 			res = floats(r)
 		}
 	})
@@ -207,6 +247,15 @@ func RunBlahut(c *core.Ctx) {
 	}
 	if hookStopAt == 0 && k != steps {
 		c.Fail("hook", what+"|steps-performed", "%s was asked for %d steps and performed %d", what, steps, k)
+	}
+	for _, v := range res {
+		if math.IsNaN(v) || v < 0 {
+			c.Fail("capacity", what+"|result-not-a-distribution", "%s returned %v (channel %v, p0=%v, lambda=%g, %d steps)", what, res, W, p0, lambda, k)
+		}
+	}
+	if structuralOnly {
+		c.Count("not-judged:arimoto-bound-without-full-support-or-with-lambda-other-than-1")
+		return
 	}
 	// Arimoto: C - I(p_k) <= D(p* || p0) / k <= max_i ln(1/p0_i) / k
 	I := mutualInfo(W, res)
